@@ -1,6 +1,7 @@
 import Spdc.Model.Grid
 import Spdc.Real.GridLemmas
 import Spdc.Real.ComposeGridLemmas
+import Spdc.Real.GridProgLemmas
 import Mathlib.Data.Real.Basic
 import Mathlib.Tactic.LinearCombination
 /-!
@@ -80,6 +81,42 @@ theorem steps_drain_partition {α : Type} [Add α] [Sub α] [Mul α] [Div α] [N
     rw [hf, hb, List.reverse_reverse, h1, h2]
     have : s.n - b = f := by omega
     rw [this, List.take_append_drop]
+
+/-- Positional access from either end, in ANY state a 1-D iterator can reach (`index ≤ index_back`:
+whatever has been taken from the front and from the back before).  `nth k` — hence `skip`, `step_by`,
+`take`, which std routes through it — returns the documented point `index + k` exactly when that point
+has not been delivered yet (`index + k < index_back`) and `None` otherwise, never a point already taken
+from the back; `nth_back k` symmetrically returns point `index_back − 1 − k`; both leave the cursors
+ordered, so the remaining length is the number of points not yet delivered. -/
+theorem steps_nth_positional {α : Type} [Add α] [Sub α] [Mul α] [Div α] [NatCast α]
+    (it : Iter1 α) (h : it.index ≤ it.indexBack) (k : Nat) :
+    it.nth k = (if it.index + k < it.indexBack then some (it.steps.value (it.index + k)) else none,
+                { it with index := min (it.index + k + 1) it.indexBack }) ∧
+    it.nthBack k = (if it.index + k < it.indexBack then some (it.steps.value (it.indexBack - 1 - k)) else none,
+                    { it with indexBack := max (it.indexBack - (k + 1)) it.index }) ∧
+    (it.nth k).2.index ≤ (it.nth k).2.indexBack ∧ (it.nthBack k).2.index ≤ (it.nthBack k).2.indexBack ∧
+    (it.nth k).2.len = it.len - (k + 1) ∧ (it.nthBack k).2.len = it.len - (k + 1) := by
+  refine ⟨it.nth_spec h k, it.nthBack_spec h k, ?_, ?_, ?_, ?_⟩
+  · rw [it.nth_spec h k]; simp only; omega
+  · rw [it.nthBack_spec h k]; simp only; omega
+  · rw [it.nth_spec h k]; simp only [Iter1.len]; omega
+  · rw [it.nthBack_spec h k]; simp only [Iter1.len]; omega
+
+/-- the same for the 2-D iterator over any partition `[index, index_back)` of the grid: `nth k` is the
+grid point with flat index `index + k` if the partition still owns it, `None` otherwise -/
+theorem steps2d_nth_positional {α : Type} [Add α] [Sub α] [Mul α] [Div α] [NatCast α] [OfScientific α]
+    (it : Iter2 α) (h : it.index ≤ it.indexBack) (k : Nat) :
+    it.nth k = (if it.index + k < it.indexBack then some (it.steps.value (it.index + k)) else none,
+                { it with index := min (it.index + k + 1) it.indexBack }) ∧
+    it.nthBack k = (if it.index + k < it.indexBack then some (it.steps.value (it.indexBack - 1 - k)) else none,
+                    { it with indexBack := max (it.indexBack - (k + 1)) it.index }) ∧
+    (it.nth k).2.index ≤ (it.nth k).2.indexBack ∧ (it.nthBack k).2.index ≤ (it.nthBack k).2.indexBack ∧
+    (it.nth k).2.len = it.len - (k + 1) ∧ (it.nthBack k).2.len = it.len - (k + 1) := by
+  refine ⟨it.nth_spec h k, it.nthBack_spec h k, ?_, ?_, ?_, ?_⟩
+  · rw [it.nth_spec h k]; simp only; omega
+  · rw [it.nthBack_spec h k]; simp only; omega
+  · rw [it.nth_spec h k]; simp only [Iter2.len]; omega
+  · rw [it.nthBack_spec h k]; simp only [Iter2.len]; omega
 
 /-! ## T2 — 2-D ranges -/
 
@@ -245,6 +282,17 @@ example : transposeVec [1, 2, 3, 4, 5, 6] 3 = .ok [1, 4, 2, 5, 3, 6] := by decid
 example : transposeVec (flatten (fun r c => 3 * r + c + 1) 2 3) 3
     = .ok (transposeSpec (fun r c => 3 * r + c + 1) 2 3) := transpose_spec _ 2 3 (by norm_num)
 
+-- `Steps(0., 9., 10)`: 9, 8, 7, 6 taken from the back leave `[0, 6)`; `nth(2)` is point 2, a following
+-- `nth(4)` (target 7, already delivered) is `None`
+example : ((⟨⟨0, 9, 10⟩, 0, 6⟩ : Iter1 ℝ).nth 2).1 = some ((⟨0, 9, 10⟩ : Steps ℝ).value 2)
+    ∧ ((⟨⟨0, 9, 10⟩, 3, 6⟩ : Iter1 ℝ).nth 4).1 = none := by
+  constructor
+  · rw [(steps_nth_positional (⟨⟨0, 9, 10⟩, 0, 6⟩ : Iter1 ℝ) (by decide) 2).1]; simp
+  · rw [(steps_nth_positional (⟨⟨0, 9, 10⟩, 3, 6⟩ : Iter1 ℝ) (by decide) 4).1]; simp
+-- the last point of a 3×4 grid by position: `nth(11)` of the fresh iterator is point 11
+example : ((⟨⟨⟨0, 1, 3⟩, ⟨0, 1, 4⟩⟩, 0, 12, 0, 12⟩ : Iter2 ℝ).nth 11).1
+    = some ((⟨⟨0, 1, 3⟩, ⟨0, 1, 4⟩⟩ : Steps2D ℝ).value 11) := by
+  rw [(steps2d_nth_positional (⟨⟨⟨0, 1, 3⟩, ⟨0, 1, 4⟩⟩, 0, 12, 0, 12⟩ : Iter2 ℝ) (by decide) 11).1]; simp
 /-! ## composed model (grid level)
 
 `Spdc/Model/ComposeGrid.lean` builds the grids of the grid-level API from primitives (`Ranges`: kind,
